@@ -148,6 +148,19 @@ func cmdDrive(args []string) {
 type familyFn func(g *gen.G, r *recorder, maxNodes, maxSteps int)
 
 var families = map[string]familyFn{
+	// paths with boolean / positional predicates inside the C02 / C03 fragments
+	"preds": func(g *gen.G, r *recorder, maxNodes, maxSteps int) {
+		d := g.Doc(maxNodes)
+		e := g.PredPath()
+		o := xast.Opts{Abbrev: g.R.Intn(2) == 0, Space: " "}
+		for k := 0; k < 2; k++ {
+			r.record(d, e, o, 1+g.R.Intn(d.Len()), "set", nil, false, false)
+		}
+	},
+	// comparisons (C07), arithmetic (C08) and string functions (C09) inside their fragments, depth up to 4
+	"values-bool": func(g *gen.G, r *recorder, maxNodes, maxSteps int) { valueFamily(g, r, maxNodes, 0) },
+	"values-num":  func(g *gen.G, r *recorder, maxNodes, maxSteps int) { valueFamily(g, r, maxNodes, 1) },
+	"values-str":  func(g *gen.G, r *recorder, maxNodes, maxSteps int) { valueFamily(g, r, maxNodes, 2) },
 	"paths": func(g *gen.G, r *recorder, maxNodes, maxSteps int) {
 		d := g.Doc(maxNodes)
 		e := g.Path(maxSteps)
@@ -157,4 +170,29 @@ var families = map[string]familyFn{
 			r.record(d, e, o, ctx, "set", nil, false, k == 2)
 		}
 	},
+}
+
+func valueFamily(g *gen.G, r *recorder, maxNodes, which int) {
+	d := g.Doc(maxNodes)
+	var e *xast.Expr
+	switch which {
+	case 0:
+		e = g.BoolExpr(2)
+	case 1:
+		e = g.NumExpr(3)
+	default:
+		e = g.StrExpr(3)
+	}
+	o := xast.Opts{Abbrev: g.R.Intn(2) == 0, Space: " "}
+	for k := 0; k < 2; k++ {
+		r.record(d, e, o, 1+g.R.Intn(d.Len()), "set", nil, false, true)
+	}
+	// comparisons also as predicates of a Select
+	if which == 0 {
+		g.NoDiv = true
+		e = g.BoolExpr(2)
+		g.NoDiv = false
+		p := &xast.Expr{T: "path", Abs: true, Steps: []xast.Step{gen.DosNode(), {Ax: "child", Nt: xast.NT{K: "any"}, Preds: []*xast.Expr{e}}}}
+		r.record(d, p, o, 1, "set", nil, false, false)
+	}
 }
